@@ -324,7 +324,8 @@ ROUND9 = {
 ROUND10 = {
     "C02": "The handler of a server `message` hands it to the Mailbox by a direct call in the same turn, so that an exception while processing a (forged) peer message reaches ws_message's try/except and Boss.error (C02.R9).",
     "C09": "WSClient.onOpen / onMessage / onClose forward to the connector by direct calls in the same turn: open and close of one connection cannot be re-ordered (C09.R11).",
-    "C10": "to_be4 / from_be4 use one unsigned 4-byte big-endian format - the seqnum / ack codec of the exactly-once argument (C10.R13).",
+    "C10": "to_be4 / from_be4 use one unsigned 4-byte big-endian format - the seqnum / ack codec of the exactly-once argument (C10.R13). SubchannelConnectorEndpoint.connect has no yield point between registering the subchannel with Inbound and attaching its protocol (C10.R14).",
+    "C13": "SubchannelConnectorEndpoint.connect has no yield point between subchannel_local_open() and _set_protocol / makeConnection: nothing can arrive for a half-built subchannel (C13.R10).",
     "C11": "Peer-hint handlers never hash an unchecked peer value into a set (C11.R12, the instance of C20.R10): an unhashable hint type would lose the whole hints message and with it the route to re-converge on.",
     "C20": "Membership tests of peer values in the hint handlers are against lists / tuples, or follow an isinstance(.., str) check - never a set literal / frozenset constant, which hashes the value (C20.R10).",
 }
